@@ -8452,3 +8452,97 @@ func ruleHandlerStatesAgree(c *Ctx) {
 		c.Fail("handler-states-agree", c.P.Pos(seeCond.Pos()), "VM.ContractHasTryBlock and VM.handleException disagree on which handlers stop an exception: "+bad[0]+fmt.Sprintf(" (%d rows differ). A call made while such a handler is the only one gets no rollback scope; when the callee throws, the handler stops the exception, the transaction can halt, and the storage writes and notifications of the failed callee are kept", len(bad)))
 	}
 }
+
+// ruleTrimmedTxFields (C02): blocks are stored trimmed - the header and the hashes of the transactions - and read
+// back as such (dao.getBlock / dao.GetBlock -> block.NewTrimmedFromReader -> transaction.NewTrimmedTX(hash)): the
+// elements of such a block's Transactions have a hash and nothing else. Code that walks them and reads attributes
+// or signers walks empty lists: the clean-up of conflict records in dao.DeleteBlock, the one place that is supposed
+// to take back what StoreAsTransaction wrote next to a transaction, never runs - neither when the collector removes
+// old blocks nor when a state reset removes recent ones (the ledger left by Reset(h) then differs from the ledger of
+// a node that only ever reached h). A transaction taken from a block that was read back trimmed is used through
+// Hash() only, until it is replaced by the full transaction.
+func ruleTrimmedTxFields(c *Ctx) {
+	trimmedSrc := map[string]bool{
+		"pkg/core/dao.(*Simple).getBlock": true, "pkg/core/dao.(*Simple).GetBlock": true,
+		"pkg/core/block.NewTrimmedFromReader": true,
+	}
+	nsrc, nloop, nbad := 0, 0, 0
+	for _, fd := range c.P.AllFuncDecls() {
+		rel := pkgRel(fd.Pkg.Types)
+		if fd.Decl.Body == nil || !strings.HasPrefix(rel, "pkg/core") {
+			continue
+		}
+		info := fd.Pkg.TypesInfo
+		blocks := map[types.Object]bool{}
+		ast.Inspect(fd.Decl.Body, func(x ast.Node) bool {
+			as, ok := x.(*ast.AssignStmt)
+			if !ok || len(as.Rhs) != 1 {
+				return true
+			}
+			call, ok := ast.Unparen(as.Rhs[0]).(*ast.CallExpr)
+			if !ok {
+				return true
+			}
+			fn := calleeFunc(info, call)
+			if fn == nil || !trimmedSrc[FuncKey(fn)] {
+				return true
+			}
+			nsrc++
+			if id, ok := as.Lhs[0].(*ast.Ident); ok && id.Name != "_" {
+				blocks[info.ObjectOf(id)] = true
+			}
+			return true
+		})
+		if len(blocks) == 0 {
+			continue
+		}
+		ast.Inspect(fd.Decl.Body, func(x ast.Node) bool {
+			rs, ok := x.(*ast.RangeStmt)
+			if !ok || rs.Value == nil {
+				return true
+			}
+			se, ok := ast.Unparen(rs.X).(*ast.SelectorExpr)
+			if !ok || se.Sel.Name != "Transactions" {
+				return true
+			}
+			bid, ok := ast.Unparen(se.X).(*ast.Ident)
+			if !ok || !blocks[info.ObjectOf(bid)] {
+				return true
+			}
+			vid, ok := rs.Value.(*ast.Ident)
+			if !ok {
+				return true
+			}
+			tx := info.ObjectOf(vid)
+			nloop++
+			seen := map[string]bool{}
+			ast.Inspect(rs.Body, func(y ast.Node) bool {
+				ms, ok := y.(*ast.SelectorExpr)
+				if !ok {
+					return true
+				}
+				id, ok := ast.Unparen(ms.X).(*ast.Ident)
+				if !ok || info.ObjectOf(id) != tx {
+					return true
+				}
+				switch ms.Sel.Name {
+				case "Hash", "Trimmed":
+					return true
+				}
+				if seen[ms.Sel.Name] {
+					return true
+				}
+				seen[ms.Sel.Name] = true
+				nbad++
+				c.Fail(fmt.Sprintf("%s.%s", shortSym(FuncKey(fd.Obj)), ms.Sel.Name), c.P.Pos(ms.Pos()), fmt.Sprintf("%s walks the transactions of a block it read back from the store - a trimmed block, whose transactions carry a hash and nothing else - and reads %s of each: the list is always empty there, so what depends on it never happens (DeleteBlock: the conflict records StoreAsTransaction wrote for the transaction are never taken back; after a state reset the records name a block above the chain, HasTransaction ignores them, and the node accepts a transaction that a node which only ever reached that height rejects with ErrHasConflicts)", FuncKey(fd.Obj), ms.Sel.Name))
+				return true
+			})
+			if len(seen) == 0 {
+				c.OK(fmt.Sprintf("%s.loop#%d", shortSym(FuncKey(fd.Obj)), nloop), c.P.Pos(rs.Pos()), "transactions of a trimmed block are used through Hash() only")
+			}
+			return true
+		})
+	}
+	c.Floor("reads of trimmed blocks from the store", nsrc, 3)
+	c.Floor("loops over the transactions of a trimmed block", nloop, 2)
+}
